@@ -33,8 +33,9 @@ tree that fact fails and the harness exhibits the defect on a concrete foreign p
 probe naming an unknown version), which is why `Model.pick` does without it.
 
 `peerVerdict` is the property C07 as a decidable predicate on an observed outcome against a peer
-(the driver's monitor for foreign-peer cells); `peerVerdict_model` (Props) proves that the model's own
-outcome always passes it.
+(the typed core of the monitor for foreign-peer cells: `Monitor.monitorPeer`); `peerVerdict_model`
+(Props) proves that the model's own outcome always passes it, `Sound.lean` that each clause it
+reports contradicts the property.
 
 `Srv`/`runSeq` model ONE `Server` value connected several times in sequence through different
 transport configurations: the session's version filter is computed from THIS session's transport
@@ -132,34 +133,42 @@ def peerMutual (requested : Option String) (P : Peer) : Bool :=
      | .result vs => vs.contains (startVersion requested)
      | _ => false)
 
-def clF30 : String := "C07: F30 the client negotiated the requested version although this SDK does not implement it (a DiscoverResult listing it was taken at face value)"
-def clNotSDK : String := "C07: negotiated version is not supported by the SDK (the client accepted a peer's answer naming a version it does not implement)"
-def clLegacyNotInit : String := "C07: a legacy version was negotiated that the peer did not answer the initialize handshake with"
-def clNotOffered : String := "C07: negotiated version was offered neither by the peer's DiscoverResult nor by its initialize answer"
-def clMutualDiff : String := "C07: requested version is mutually supported but a different one was negotiated"
-def clMutualErr : String := "C07: connect failed although the requested version is mutually supported"
+/-- The clauses of C07 a foreign-peer cell can violate (texts: `Driver.peerClauseText`). -/
+inductive PClause
+  | f30                  -- negotiated the requested version although this SDK does not implement it
+  | notSDK               -- negotiated version is not supported by the SDK
+  | legacyNotInit        -- a legacy version that the peer did not answer the initialize handshake with
+  | notOffered           -- offered neither by a DiscoverResult nor by the initialize answer
+  | mutualDiff           -- requested version mutually supported but a different one negotiated
+  | mutualErr            -- connect failed although the requested version is mutually supported
+  | fallbackLegacy       -- failed although the peer answers the requested legacy handshake with a supported version
+  | fallbackUnavailable  -- no fallback although discovery is unavailable and initialize would succeed
+  | fallbackNoOverlap    -- no fallback although discovery yields no modern overlap and initialize would succeed
+  | cannotUse            -- connected session cannot list and call tools
+  | unreadable           -- unreadable negotiated version
+  | crashed              -- connect crashed or produced no outcome
+deriving DecidableEq, Repr
 
-/-- Why the initialize handshake was due (text of the fallback clause). -/
-def clFallback (requested : Option String) (P : Peer) : String :=
-  if startVersion requested < modern then
-    "C07: connect failed although the peer answers the requested legacy initialize handshake with a supported version"
+/-- Why the initialize handshake was due (which fallback clause). -/
+def clFallback (requested : Option String) (P : Peer) : PClause :=
+  if startVersion requested < modern then .fallbackLegacy
   else match P.discover (startVersion requested) with
-    | .unavailable => "C07: no fallback to initialize: connect failed although discovery is unavailable and the peer answers initialize with a supported version"
-    | _ => "C07: no fallback to initialize: connect failed although discovery yields no modern overlap and the peer answers initialize with a supported version"
+    | .unavailable => .fallbackUnavailable
+    | _ => .fallbackNoOverlap
 
-def peerVerdict (requested : Option String) (P : Peer) (o : Outcome) : Option String :=
+def peerVerdict (requested : Option String) (P : Peer) (o : Outcome) : Option PClause :=
   match o with
   | .negotiated v =>
     if supportedProtocolVersions.contains v = false then
-      some (if v = startVersion requested then clF30 else clNotSDK)
-    else if v < modern ∧ P.init (legacyRequest requested) ≠ some v then some clLegacyNotInit
+      some (if v = startVersion requested then .f30 else .notSDK)
+    else if v < modern ∧ P.init (legacyRequest requested) ≠ some v then some .legacyNotInit
     else if ¬ v < modern ∧ P.init (legacyRequest requested) ≠ some v ∧
         ¬ (¬ startVersion requested < modern ∧ (discLists P (startVersion requested)).any (·.contains v) = true) then
-      some clNotOffered
-    else if peerMutual requested P = true ∧ v ≠ startVersion requested then some clMutualDiff
+      some .notOffered
+    else if peerMutual requested P = true ∧ v ≠ startVersion requested then some .mutualDiff
     else none
   | .error =>
-    if peerMutual requested P = true then some clMutualErr
+    if peerMutual requested P = true then some .mutualErr
     else match P.init (legacyRequest requested) with
       | some w => if supportedProtocolVersions.contains w = true then some (clFallback requested P) else none
       | none => none
